@@ -23,6 +23,10 @@ package main
 //   id 43  canary:conc/race           unsynchronised write to a harness global, constant result
 //                                     -> flags all fine; bin/plugins/C20.py demands that the -race
 //                                     twin REPORTS this race (and nothing but canary races)
+//   id 45  canary:nondet/first-call   the first sequential call of a case returns 0, every later call 1 (in
+//                                     every process alike) -> det = 0, seen ONLY by the plain repeat on
+//                                     rebuilt arguments (ids >= 20 skip the reused-arrays step, like the
+//                                     library's in-place operations)
 //   id 44  canary:panic               always panics                      -> panics = 1 (a panic that is
 //                                     swallowed uncounted would let a call that compared nothing pass)
 
@@ -41,7 +45,11 @@ const (
 	c20CanaryConc   = 42
 	c20CanaryRace   = 43
 	c20CanaryPanic  = 44
+	c20CanaryFirst  = 45
 )
+
+// set by c20Run immediately before the first sequential call of every case
+var c20CanaryFirstCall int32
 
 var c20Canaries []c20Call
 
@@ -174,6 +182,15 @@ func init() {
 	addc(c20Call{"canary:conc/overlap", c20CanaryConc, 1, func(rng *rand.Rand, n int) func() *c20Inst {
 		xs := c20Data(rng, n)
 		return one(&c20Inst{[]func() []uint64{snapF(&xs)}, func() []uint64 { return []uint64{c20CanaryOverlapFn()} }})
+	}})
+	addc(c20Call{"canary:nondet/first-call", c20CanaryFirst, 1, func(rng *rand.Rand, n int) func() *c20Inst {
+		xs := c20Data(rng, n)
+		return one(&c20Inst{[]func() []uint64{snapF(&xs)}, func() []uint64 {
+			if atomic.CompareAndSwapInt32(&c20CanaryFirstCall, 1, 0) {
+				return []uint64{0}
+			}
+			return []uint64{1}
+		}})
 	}})
 	addc(c20Call{"canary:panic", c20CanaryPanic, 1, func(rng *rand.Rand, n int) func() *c20Inst {
 		xs := c20Data(rng, n)
